@@ -175,7 +175,8 @@ def run_concrete(case) -> list[tuple[str, str]]:
                             ("generic", "tinybuf"), ("generic", "raw1"), ("generic", "raw2"),
                             ("generic", "seekraw"), ("rdflib", "seekraw"),
                             ("generic", "shortbuf1"), ("generic", "shortbuf2"),
-                            ("rdflib", "shortbuf1"), ("generic", "shortbuf5")):
+                            ("rdflib", "shortbuf1"), ("generic", "shortbuf5"),
+                            ("rdflib-plugin", "bytesio")):
             if source in ("raw1", "shortbuf1", "shortbuf2", "shortbuf5") and len(data) > 100_000:
                 continue  # (one byte at a time through megabytes adds nothing but time)
             src = {"bytesio": lambda: io.BytesIO(data),
@@ -196,8 +197,13 @@ def run_concrete(case) -> list[tuple[str, str]]:
                    "tinybuf": lambda: io.BufferedReader(
                        faultio.ScheduleRaw(data, seekable=True), buffer_size=2)}[source]()
             try:
-                evs = (DR.g_read if api == "generic" else DR.r_read)(data, "flat", src=src)
-                got = DR.stmts_of(evs)
+                if api == "rdflib-plugin":  # Graph.parse(format="jelly")
+                    got = DR.stmts_of(DR.r_read(data, "graph_parse", quads=cls != "triple"))
+                    if set(got) == set(expect):
+                        got = expect
+                else:
+                    evs = (DR.g_read if api == "generic" else DR.r_read)(data, "flat", src=src)
+                    got = DR.stmts_of(evs)
             except Exception as e:  # noqa: BLE001
                 fails.append((label, f"{label} stream (header {data[:3].hex()}, {len(data)} bytes, "
                                      f"stream_name of {nlen} bytes) from a {source} source fails "
